@@ -87,7 +87,7 @@ def run_case(case):
         viol.append(V('survivor-hung', f"{desc}: a contender did not finish its rounds within the hang guard", 'survivor-hung'))
     surv = [s for s in r['survivors'] if s]
     if any(s.get('inconsistent') for s in surv):
-        viol.append(V('survivor-inconsistent', f"{desc}: a survivor's acquire reported failure while its is_locked was true "
+        viol.append(V('survivor-inconsistent', f"{desc}: a survivor's acquire reported failure while its is_locked was true, or its is_locked was still true after its release "
                       f"({surv})", 'survivor-inconsistent'))
     if any(s['clashes'] for s in surv):
         viol.append(V('survivor-overlap', f"{desc}: survivors overlapped inside the protected section ({surv})", 'survivor-overlap'))
